@@ -17,10 +17,16 @@ def run(ctx):
     behs += life.gen(ctx, held, 3 if q else 4, "all histories incl. kept mocker handles re-used after Cancel/Reset, 1 target")
     behs += life.sim(ctx, dict(one, Ops="<- HeldOps", RS="<- RS_12", A="{0, 1}"), 150 if q else 3000, 12, "random histories with kept handles")
     life.replay(ctx, "life", behs)
+    # instantiations of generic functions (goom patches the shape body behind the wrapper; no parameters, hence no When)
+    gen = {"B": '{"b1"}', "T": '{"f", "g"}', "CB": '{"c1"}', "RS": "<- RS_12", "A": "{0}", "Ops": "<- GenericOps"}
+    gb = life.gen(ctx, gen, 3 if q else 4, "all histories over generic instantiations incl. kept handles")
+    gb += life.sim(ctx, dict(gen, B='{"b1", "b2"}', T='{"f", "g", "h"}', CB='{"c1", "c2"}'), 100 if q else 2000, 12, "random histories over generic instantiations")
+    life.replay(ctx, "life-generic", gb)
     ctx.cov["exhaustive"] = True
     ctx.cov["rule"] = ("every history over {Apply, Origin+Apply, Return, When, Cancel, Reset} to the stated depth for one "
                        "builder and for two builders sharing both targets, plus seeded random length-12 histories; after "
                        "EVERY step the driver diffs the whole .text against the pristine snapshot (allowed: 13 entry bytes "
                        "of targets the spec says are mocked, bodies of placeholders handed to goom) and after the final "
-                       "Reset checks page permissions; 4 handle kinds; non-trivial = contains a mutating op")
+                       "Reset checks page permissions; 4 handle kinds; a fifth kind (instantiations of parameterless generic functions, image "
+                       "compared at the shape body, the int64 instantiations as bystanders) over its own alphabet; non-trivial = contains a mutating op")
     ctx.assumptions += ["call results of a target touched by two builders are unconstrained; its bytes are not"]
